@@ -276,7 +276,18 @@ pub fn legacy_rekey_ops(w: &World, r: &mut Rng) -> Vec<Op> {
             if let Ok(mut v) = serde_json::from_slice::<Value>(&raw) {
                 v["id"] = json!(new_id);
                 // keep the contract's field order: re-serialise through the raw text
-                let text = String::from_utf8_lossy(&raw).replace(&format!("\"id\":\"{}\"", id), &format!("\"id\":\"{}\"", new_id));
+                let mut text = String::from_utf8_lossy(&raw).replace(&format!("\"id\":\"{}\"", id), &format!("\"id\":\"{}\"", new_id));
+                // earlier releases also stored the price exactly as it was sent, e.g. padded with zeros beyond
+                // what a 96-bit decimal spells (same value)
+                if r.chance(20) {
+                    if let Some(p) = v["price"].as_str() {
+                        let (i, f) = p.split_once('.').unwrap_or((p, ""));
+                        if f.len() < 30 && !i.is_empty() && i.bytes().all(|b| b.is_ascii_digit()) && f.bytes().all(|b| b.is_ascii_digit()) {
+                            let long = format!("{}.{}{}", i, f, "0".repeat(30 - f.len()));
+                            text = text.replace(&format!("\"price\":\"{}\"", p), &format!("\"price\":\"{}\"", long));
+                        }
+                    }
+                }
                 let _ = v;
                 ops.push(Op::PutRaw { key: map_key(ns, &id), value: None });
                 ops.push(Op::PutRaw { key: map_key(ns, &new_id), value: Some(text.into_bytes()) });
